@@ -2427,6 +2427,13 @@ parse_identifier:
                           yylval.ihe = ihe;
                           return L_DEFINED_NAME;
                         }
+                      if (function_flag)
+                        {
+                          /* "(:" followed by a name nothing is bound to: an ordinary functional whose expression
+                           * starts with that name (the flag must not survive this token) */
+                          function_flag = 0;
+                          return old_func ();
+                        }
                       yylval.string = scratch_copy (yytext);
                       return L_IDENTIFIER;
                     }
@@ -2573,6 +2580,7 @@ void start_new_file (int fd, const char* pre_text) {
   lex_fatal = 0;
   last_function_context = -1;
   current_function_context = 0;
+  function_flag = 0;
   cur_lbuf = &head_lbuf;
   cur_lbuf->outptr = cur_lbuf->buf_end = outptr = cur_lbuf->buf + (DEFMAX >> 1);
 
